@@ -16,15 +16,22 @@ RULE = ("bounded-exhaustive bracket sequences: every sequence of N leaves from {
 ASSUMPTIONS = ["programs whose only issue is gates after a trailing unmatched prepare_all are not judged (statement ambiguous)",
                "termination of accepted programs is C08's clause: a step-budget overrun here is inconclusive for C12"]
 TIERS = {"quick": {"shards": 8, "budget_s": 55}, "thorough": {"shards": 16, "budget_s": 480}}
-REQUIRE = {"object-assembled-programs": 2000, "ref-accept": 500, "ref-reject:measure-without-prepare": 100, "ref-reject:gate-outside-subcircuit": 100,
+REQUIRE = {"loop-count-overridden-programs": 1000, "object-assembled-programs": 2000, "ref-accept": 500, "ref-reject:measure-without-prepare": 100, "ref-reject:gate-outside-subcircuit": 100,
            "ref-reject:measure-in-loop-closes-earlier-prepare": 50, "states-compared": 500}
 
 
 def judge(case):
     prog = case_prog(case)
-    st, s = X.setup(prog, assemble=bool(case.get("assemble")))
+    ov = dict(case.get("ov") or {})
+    st, s = X.setup(prog, ov or None, assemble=bool(case.get("assemble")))
     if st != "ok":
         return st, [], None
+    if case.get("order") == "ML":
+        # macros expanded while the loop counts are still symbolic; the overrides reach the expanded circuit
+        om = lib.outcome(lib.expand_macros, s.c)
+        if om[0] != "ok":
+            return "skipped:expand-macros-first-rejected", [], None
+        s.c = om[1]
     P = s.P
     info = {}
     if P.overlap() is not None:
@@ -40,7 +47,7 @@ def judge(case):
     if scan is not None and scan["trailing_gates"]:
         return "skipped:trailing-gates-ambiguous", [], None
     info["ref"] = "accept" if rule is None else "reject:" + rule
-    o = X.run(s, None, seed=1)
+    o = X.run(s, ov or None, seed=1)
     fails = []
     if o[0] == "budget":
         return "inconclusive-case:step-budget", [], info
@@ -83,6 +90,29 @@ def _clauses(case):
     return {f[0] for f in judge(case)[1]}
 
 
+def letify(rng, prog):
+    """One literal loop count c replaced by a let that is DECLARED with another value and OVERRIDDEN to c: the program
+    under its override dictionary is the original program."""
+    loops = [s for s in sx.walk(prog) if s[0] == "loop" and isinstance(s[1], int)]
+    if not loops:
+        return None
+    target = rng.choice(loops)
+    c = target[1]
+    declared = rng.choice([v for v in (0, 1, 2, 3) if v != c])
+    done = [False]
+
+    def rw(s):
+        if not isinstance(s, tuple):
+            return s
+        if s is target and not done[0]:
+            done[0] = True
+            return ("loop", "cnt", rw(s[2]))
+        return tuple(rw(x) for x in s)
+
+    body = rw(prog)
+    return ("circuit", ("let", "cnt", declared)) + body[1:], {"cnt": c}
+
+
 def process(ctx, case, seen, minimise_budget=120):
     rec = ctx.rec
     prog = case_prog(case)
@@ -109,11 +139,15 @@ def process(ctx, case, seen, minimise_budget=120):
             rec.count("unminimised-repeat:" + clause)
             continue
         base = {"assemble": True} if case.get("assemble") else {}
+        if case.get("ov"):
+            base.update(ov=case["ov"], order=case.get("order"))
         small = minimise.minimise(prog, lambda p: clause in _clauses(dict(base, prog=p)), budget=minimise_budget) if minimise_budget else prog
         small_case = dict(base, prog=small)
         d2 = [x for x in judge(small_case)[1] if x[0] == clause]
         feats = shape_features(small)
-        if base:
+        if base.get("ov"):
+            feats = set(feats) | {"loop-count-overridden", "macros-expanded-first" if base.get("order") == "ML" else "lets-filled-first"}
+        if base.get("assemble"):
             feats = set(feats) | {"assembled-from-core-objects"}
             if any(x[0] == "subcircuit_block" and any(y is not x and y[0] == "subcircuit_block" for y in sx.walk(x)) for x in sx.walk(small)):
                 feats.add("subcircuit-inside-subcircuit")
@@ -208,6 +242,11 @@ def shard(ctx):
             emitted.add(prog)
             process(ctx, {"prog": prog}, seen)
             rec.count("bracket-programs")
+            if j % 3 == 0:
+                lp = letify(ctx.rng, prog)
+                if lp is not None:
+                    process(ctx, {"prog": lp[0], "ov": lp[1], "order": ctx.rng.choice(["LM", "ML"])}, seen, minimise_budget=0)
+                    rec.count("loop-count-overridden-programs")
     rec.exhaustive = done_all
     rec.note("exhaustive_spaces", {"(leaves<=N, containers<=B, stride)": spaces, "complete": done_all,
                                    "meaning": "spaces with stride 1 were enumerated completely when complete is true"})
